@@ -22,6 +22,8 @@
 (*   "lost" a handshake of x passed the credential check elsewhere but its response could not     *)
 (*   be delivered (not a successful handshake), "late" an older connection of x was closed /      *)
 (*   cleaned up, "ttl" at least one registration lifetime of ticks has passed; "fresh" = none.    *)
+(*   A leading "first+" marks that x's latest successful handshake was its first-connection       *)
+(*   handshake (the server allocated the identity during it).                                    *)
 (*   A leading "reauth+" marks that x's latest successful handshake was a re-handshake on a       *)
 (*   connection x had already authenticated on.                                                  *)
 (*   A leading "lookup+" marks that, since that handshake, a two-step lookup of x (LkBegin = it    *)
@@ -41,7 +43,8 @@ VARIABLES be, life, clk,
           lost,    \* client -> an undeliverable handshake of it happened since that handshake
           cause,   \* client -> cause of the latest close of one of its connections
           lkd,     \* client -> a two-step lookup of it completed since its latest handshake
-          re,      \* client -> its latest handshake was a re-handshake on an already authenticated connection
+          re,      \* client -> kind of its latest handshake: "reauth" (on an already authenticated connection),
+                   \*           "first" (first-connection handshake, identity allocated by the server), "-"
           hb, alive
 vars == <<l, viol, be, life, clk, cs, last, lastAt, late, lost, cause, lkd, re, hb, alive>>
 
@@ -50,14 +53,14 @@ Reset == /\ be' = "?" /\ life' = 2 /\ clk' = 0
          /\ cs' = [c \in Conns |-> Fresh]
          /\ last' = [x \in Clients |-> "-"] /\ lastAt' = [x \in Clients |-> 0]
          /\ late' = [x \in Clients |-> FALSE] /\ lost' = [x \in Clients |-> FALSE]
-         /\ cause' = [x \in Clients |-> "-"] /\ lkd' = [x \in Clients |-> FALSE] /\ re' = [x \in Clients |-> FALSE]
+         /\ cause' = [x \in Clients |-> "-"] /\ lkd' = [x \in Clients |-> FALSE] /\ re' = [x \in Clients |-> "-"]
          /\ hb' = [c \in Conns |-> FALSE] /\ alive' = [c \in Conns |-> FALSE]
 
 Init == /\ l = 1 /\ viol = {} /\ be = "?" /\ life = 2 /\ clk = 0
         /\ cs = [c \in Conns |-> Fresh]
         /\ last = [x \in Clients |-> "-"] /\ lastAt = [x \in Clients |-> 0]
         /\ late = [x \in Clients |-> FALSE] /\ lost = [x \in Clients |-> FALSE]
-        /\ cause = [x \in Clients |-> "-"] /\ lkd = [x \in Clients |-> FALSE] /\ re = [x \in Clients |-> FALSE]
+        /\ cause = [x \in Clients |-> "-"] /\ lkd = [x \in Clients |-> FALSE] /\ re = [x \in Clients |-> "-"]
         /\ hb = [c \in Conns |-> FALSE] /\ alive = [c \in Conns |-> FALSE]
 
 Step == l' = l + 1
@@ -82,7 +85,7 @@ TrAuth == /\ Is("Auth") /\ Ev.c \in Conns /\ Ev.x \in Clients
           /\ hb' = [hb EXCEPT ![Ev.c] = TRUE]
           /\ alive' = [alive EXCEPT ![Ev.c] = TRUE]
           /\ Step /\ UNCHANGED <<viol, be, life, clk, cause>> /\ lkd' = [lkd EXCEPT ![Ev.x] = FALSE]
-          /\ re' = [re EXCEPT ![Ev.x] = (cs[Ev.c].auth = Ev.x)]
+          /\ re' = [re EXCEPT ![Ev.x] = IF Has("w") /\ Ev.w = "new" THEN "first" ELSE IF cs[Ev.c].auth = Ev.x THEN "reauth" ELSE "-"]
 
 \* the credential check of x passed on connection c but the response could not be written: the
 \* peer is gone.  Not a successful handshake: x's location does not move.  The connection is dead
@@ -122,7 +125,7 @@ Class(x) == LET t == clk - lastAt[x] >= life
                 base == IF late[x] /\ t THEN "late+ttl" ELSE IF late[x] THEN "late" ELSE IF t THEN "ttl" ELSE "fresh"
                 b2 == IF ~lost[x] THEN base ELSE IF base = "fresh" THEN "lost" ELSE "lost+" \o base
                 b3 == IF lkd[x] THEN "lookup+" \o b2 ELSE b2
-            IN IF re[x] THEN "reauth+" \o b3 ELSE b3
+            IN IF re[x] = "-" THEN b3 ELSE re[x] \o "+" \o b3
 
 FindBad(f) ==
   IF f.x \notin Clients THEN {}
